@@ -4,7 +4,9 @@ design  : the unrestricted specification (every action with every parameter) is 
 spec -> code: every behaviour of JSONSign_gen.tla within the tier's bounds (start document x action history) is
   re-enacted on real bytes with real ed25519 keys (harness/cmd/c02 `c02`); the verification matrix over
   2 entities x 2 key IDs x 3 keys and ListKeyIDs of the final document are compared with the specification,
-  and every SignJSON step is checked to keep the other members and signature entries.
+  and every SignJSON step is checked to keep the other members and signature entries.  A second family
+  (FormSpec, JSONSign_forms_<tier>.cfg) leaves entries that are no signatures, in every form, next to (and in
+  the place of) a genuine signature: the signer still verifies, ListKeyIDs lists what is there.
 code -> spec: seeded random runs over a wider universe (`c02rec`) are logged action by action with the library's
   answers and validated by JSONSign_trace.tla."""
 import json
@@ -26,21 +28,30 @@ def run(ctx):
         "spellings of one number (1.0 / 1, -0 / 0) are never opposed, and SignJSON's output members are compared with "
         "its input's by exact numeric value",
         "no duplicate member names",
+        "an entry of the signatures member in a form other than a string of unpadded base64 is never a signature under a key "
+        "of the universe (where it carries bytes they are a signature by a key nobody holds, or random); SignJSON may decline "
+        "(error) a document holding an entry it cannot carry over (anything but base64 strings, null and \"\"), it may not "
+        "drop or rewrite one; null and \"\" are one form (a blanked entry); every signatures[name] is an object or null",
     ]
     ctx.exhaustive = True
     ctx.notes["rule"] = ("every behaviour of JSONSign_gen.tla (GenSpec) within the bounds of the tier's cfg: start document "
                          "(object shape x presentation x spelling of the empty signature map) x action history; one record "
                          "per behaviour, compared on the full verification matrix and the key-ID lists of its final state; "
-                         "distinct = distinct (start spelling, action-name sequence, final presentation, number of verifying triples)")
-    ctx.notes["constants"] = "JSONSign_gen_%s.cfg" % ctx.tier
+                         "distinct = distinct (start spelling, action-name sequence, final presentation, number of verifying triples"
+                         "; in FormSpec also the sequence of (place, form) of the entries left)")
+    ctx.notes["constants"] = "JSONSign_gen_%s.cfg, JSONSign_forms_%s.cfg" % (ctx.tier, ctx.tier)
 
     # the design itself: unrestricted Next, all invariants
     ctx.tlc("JSONSign_gen", "JSONSign_base.cfg", expect_records=False)
 
     # spec -> code
     r = ctx.tlc("JSONSign_gen", "JSONSign_gen_%s.cfg" % ctx.tier, timeout=1500)
-    ctx.replay_and_compare("c02", r.records, pkg=PKG, timeout=3000)
-    del r
+    # second family (FormSpec): a genuine SignJSON signature, then entries of every form (padded base64, text that is
+    # no base64, number / boolean, object, array, null / "") in every place relative to it (another entity's, the
+    # signer's under another key ID, under a key ID of another algorithm, the signer's own)
+    rf = ctx.tlc("JSONSign_gen", "JSONSign_forms_%s.cfg" % ctx.tier, timeout=1500)
+    ctx.replay_and_compare("c02", r.records + rf.records, pkg=PKG, timeout=3000)
+    del r, rf
 
     # code -> spec
     record_and_validate(ctx, 1000 if ctx.tier == "quick" else 30000)
@@ -84,6 +95,8 @@ def record_and_validate(ctx, n):
         x = same[0]
         kind = "keyids-error" if any(str(k).startswith("error:") for v in x["kids"].values() for k in v) else "answers"
         key = ("C02/lookalike-member/trace/%s" % kind) if x.get("look") else ("C02/trace/%s/after=%s" % (kind, x["op"]))
+        if x.get("form"):
+            key = "C02/foreign-entry/trace/%s/form=%s" % (kind, x["form"])
         if x.get("lone"):
             key = "C02/lone-surrogate/trace/%s" % kind
         if key in rejected:
